@@ -2,15 +2,15 @@
 (* Small helpers shared by all whatshap specifications. *)
 EXTENDS Naturals, Integers, Sequences, FiniteSets
 
-Range(s) == { s[i] : i \in DOMAIN s }
+Rng(s) == { s[i] : i \in DOMAIN s }
 
 RECURSIVE SumSeq(_)
 SumSeq(s) == IF s = <<>> THEN 0 ELSE Head(s) + SumSeq(Tail(s))
 
-RECURSIVE SumSet(_, _)
+RECURSIVE SumOver(_, _)
 (* sum of f[x] over the finite set S *)
-SumSet(S, f) == IF S = {} THEN 0
-                ELSE LET x == CHOOSE y \in S : TRUE IN f[x] + SumSet(S \ {x}, f)
+SumOver(S, f) == IF S = {} THEN 0
+                ELSE LET x == CHOOSE y \in S : TRUE IN f[x] + SumOver(S \ {x}, f)
 
 MinSet(S) == CHOOSE x \in S : \A y \in S : x <= y
 MaxSet(S) == CHOOSE x \in S : \A y \in S : y <= x
@@ -24,7 +24,7 @@ Count(s, v) == Cardinality({ i \in DOMAIN s : s[i] = v })
 
 (* two sequences are permutations of one another *)
 SameBag(s, t) == /\ Len(s) = Len(t)
-                 /\ \A v \in Range(s) \cup Range(t) : Count(s, v) = Count(t, v)
+                 /\ \A v \in Rng(s) \cup Rng(t) : Count(s, v) = Count(t, v)
 
 IsSortedAsc(s) == \A i \in 1..(Len(s) - 1) : s[i] <= s[i + 1]
 
